@@ -395,7 +395,7 @@ def coq_design(d, orders=None, flips=None):
   nodes, rows = {}, []
   roots = {}
   def rid(r):
-    if r not in roots: roots[r] = len(roots)
+    if r not in roots: roots[r] = len(roots) + 1         # root 0 is reserved for the default entry of the signal table
     return roots[r]
   def chain_t(ch): return coq_list([f'{"Fld" if k == "F" else "Slc"} {lo} {hi}' for k, lo, hi in ch])
   def nid(e, host=None):
